@@ -384,7 +384,7 @@ def _find_apps(v, pred, out=None):
 
 
 def _dispatch_problems(v, mode, suffix, sep_path):
-    problems = []
+    problems = _single_path(v)
     seps = _find_apps(v, lambda n: n.startswith(sep_path))
     if not seps:
         return ["does not reach blend_separable"]
@@ -406,11 +406,23 @@ def _dispatch_problems(v, mode, suffix, sep_path):
     return problems
 
 
+def _single_path(v):
+    """a dispatcher has one path: the forwarding one (a fast path / early return is a second formula nobody compared with the W3C one)"""
+    try:
+        paths = [pth for pth, _leaf in sym.leaves(sym.hoist(v))]
+    except Exception:
+        return []
+    if len(paths) > 1:
+        return ["the result depends on a condition (%d paths: %s): only one of them is the formula decided above"
+                % (len(paths), "; ".join(" & ".join(sym.show_cond(c) if pol else "!(%s)" % sym.show_cond(c) for c, pol in pth)[:80] for pth in paths[:3]))]
+    return []
+
+
 def _compose_problems(v, op):
-    problems = []
+    problems = _single_path(v)
     calls = _find_apps(v, lambda n: n.startswith("blend::compose::Compose::"))
     if not calls:
-        return ["does not forward to PreAlpha's Compose"]
+        return problems + ["does not forward to PreAlpha's Compose"]
     for a in calls:
         nm = a.name.split("<")[0].split("::")[-1]
         if nm != op:
